@@ -6,11 +6,16 @@
                                         pianoroll_to_notearray
 * keyword forwarding / forced values    the call `_make_pianoroll(...)` inside compute_pianoroll and the call
                                         `compute_pianoroll(...)` inside compute_pitch_class_pianoroll (ast, no execution)
-* literals inside function bodies       drum channel, default pitch range, piano-range slice, decoder shapes,
-                                        pitch-class fold constants (ast, no execution)
-* two finite function tables            get_time_units_from_note_array on every subset of the `onset_<unit>` fields,
-                                        and the `time_div="auto"` default of every unit (tabulated by calling the live
-                                        functions on their whole finite domain)
+* finite function tables                obtained by calling the live functions on their whole finite domain:
+                                        get_time_units_from_note_array on every subset of the `onset_<unit>` fields,
+                                        the `time_div="auto"` default of every unit, the note-array layout
+                                        ensure_notearray produces per kind of input, the channel(s) `remove_drums`
+                                        drops (channels 0..19), the roll heights pianoroll_to_notearray accepts
+                                        (0..300) with their pitch offset
+* row constants                         default pitch range, piano-range slice and the index-row offsets, read off
+                                        the roll of a single note of pitch 60; rows / period / modulus of the pitch-class
+                                        fold, read off the pitch-class rolls of the 128 single notes (all independent of
+                                        local variable names and of the way the literals are written)
 
 The generator never raises (the shared translator must keep working for the other properties): whatever
 cannot be read is emitted as a neutral value and `C13_EXTRACTION_OK` becomes `false` with the reasons in
@@ -98,50 +103,8 @@ def _kw_split(call):
                 forced.append((k.arg, _const(k.value)))
             except Exception:
                 other.append(k.arg)
-    return fwd, forced, other
-
-
-def _assigned_constants(tree, name):
-    out = []
-    for node in ast.walk(tree):
-        if isinstance(node, ast.Assign) and len(node.targets) == 1:
-            t = node.targets[0]
-            if isinstance(t, ast.Name) and t.id == name:
-                try:
-                    out.append(_const(node.value))
-                except Exception:
-                    pass
-    return out
-
-
-def _is_sub(node, base, key):
-    """`base[key]` with a constant key (base by name) or `base.shape[key]`"""
-    if not isinstance(node, ast.Subscript):
-        return False
-    try:
-        k = _const(node.slice)
-    except Exception:
-        return False
-    if k != key:
-        return False
-    v = node.value
-    if isinstance(v, ast.Name):
-        return v.id == base
-    if isinstance(v, ast.Attribute) and isinstance(v.value, ast.Name):
-        return v.value.id + "." + v.attr == base
-    return False
-
-
-def _compares(tree, base, key):
-    """[(op class name, constant)] of comparisons `base[key] <op> constant`"""
-    out = []
-    for node in ast.walk(tree):
-        if isinstance(node, ast.Compare) and len(node.ops) == 1 and _is_sub(node.left, base, key):
-            try:
-                out.append((type(node.ops[0]).__name__, _const(node.comparators[0])))
-            except Exception:
-                pass
-    return out
+    # canonical order: the order in which keywords are written at the call site carries no meaning
+    return sorted(fwd), sorted(forced, key=lambda kv: kv[0]), sorted(other)
 
 
 def _defaults(fn, notes, spec):
@@ -313,6 +276,114 @@ def _probe_layouts(M, units, notes):
     return out
 
 
+def _one_note(pitch=60, channel=None):
+    import numpy as np
+
+    dt = [("pitch", "i4"), ("onset_sec", "f4"), ("duration_sec", "f4"), ("velocity", "i4")]
+    if channel is not None:
+        dt.append(("channel", "i4"))
+    arr = np.zeros(1, dtype=dt)
+    arr["pitch"] = pitch
+    arr["duration_sec"] = 1
+    arr["velocity"] = 64
+    if channel is not None:
+        arr["channel"] = channel
+    return arr
+
+
+def _quiet(f, *a, **kw):
+    with warnings.catch_warnings():
+        warnings.simplefilter("ignore")
+        return f(*a, **kw)
+
+
+def _probe_drum_channel(M, notes):
+    """the channels whose notes `remove_drums=True` drops (each MIDI channel 0..15 and a few beyond, one at a time)"""
+    dropped = []
+    for ch in range(0, 20):
+        try:
+            _quiet(M.compute_pianoroll, _one_note(60, ch), time_div=1, remove_drums=True)
+        except Exception:
+            # an empty note array is rejected: the only note was dropped
+            try:
+                _quiet(M.compute_pianoroll, _one_note(60, ch), time_div=1, remove_drums=False)
+                dropped.append(ch)
+            except Exception:
+                notes.append("compute_pianoroll rejects a single note on channel %d" % ch)
+    if len(dropped) != 1:
+        notes.append("remove_drums drops the channels %r (expected exactly one)" % (dropped,))
+        return 0
+    return dropped[0]
+
+
+def _probe_rows(M, notes):
+    """(lowest, highest, piano_lo, piano_hi, idx_start, idx_start_piano) read off the roll of one note of pitch 60"""
+    try:
+        pr, idx = _quiet(M.compute_pianoroll, _one_note(60), time_div=1, pitch_margin=-1, piano_range=False, return_idxs=True)
+        a = pr.toarray()
+        r = int(a.nonzero()[0][0])
+        lowest = 60 - r
+        highest = lowest + a.shape[0] - 1
+        start = (60 - lowest) - int(idx[0][0])
+        pr2, idx2 = _quiet(M.compute_pianoroll, _one_note(60), time_div=1, pitch_margin=-1, piano_range=True, return_idxs=True)
+        b = pr2.toarray()
+        r2 = int(b.nonzero()[0][0])
+        lo = (60 - lowest) - r2
+        hi = lo + b.shape[0]
+        if hi >= a.shape[0]:
+            notes.append("piano-range slice reaches the last row: its upper bound cannot be read off")
+        start_piano = (60 - lowest) - int(idx2[0][0])
+        return lowest, highest, lo, hi, start, start_piano
+    except Exception as e:
+        notes.append("row constants unreadable (%s: %s)" % (type(e).__name__, e))
+        return 0, 0, 0, 0, 0, 0
+
+
+def _probe_decoder(M, notes):
+    """[(rows, pitch offset)] of the roll heights `pianoroll_to_notearray` accepts (heights 0..300 tried)"""
+    import numpy as np
+
+    out = []
+    for rows in range(0, 301):
+        a = np.zeros((rows, 1), dtype=int)
+        if rows:
+            a[0, 0] = 1
+        try:
+            na = _quiet(M.pianoroll_to_notearray, a, 1, "sec")
+        except Exception:
+            continue
+        if rows == 0 or len(na) != 1:
+            notes.append("pianoroll_to_notearray accepts a roll with %d rows and returns %d notes" % (rows, len(na)))
+            continue
+        out.append((rows, int(na["pitch"][0])))
+    return out
+
+
+def _probe_pc(M, notes):
+    """(rows of the pitch-class roll, number of pitches folded, fold period, modulus of the index rows), read off
+    the pitch-class rolls of the 128 single notes"""
+    try:
+        cls, idx0, rows = [], [], set()
+        for p in range(128):
+            pc, idx = _quiet(M.compute_pitch_class_pianoroll, _one_note(p), normalize=False, time_div=1, return_idxs=True)
+            rows.add(int(pc.shape[0]))
+            nz = sorted(set(int(x) for x in pc.nonzero()[0]))
+            cls.append(nz[0] if len(nz) == 1 else None)
+            idx0.append(int(idx[0][0]))
+        span = sum(1 for c in cls if c is not None)
+        if len(rows) != 1 or span != 128:
+            notes.append("pitch-class roll: %r rows, %d of 128 pitches shown in exactly one class" % (sorted(rows), span))
+        step = [m for m in range(1, 129) if all(c == p % m for p, c in enumerate(cls))]
+        mod = [m for m in range(1, 129) if all(c == p % m for p, c in enumerate(idx0))]
+        if not step or not mod:
+            notes.append("pitch-class roll: the class of a pitch is not pitch mod m (classes %r..., index rows %r...)" % (cls[:14], idx0[:14]))
+            return (sorted(rows)[0] if rows else 0), span, 0, 0
+        return sorted(rows)[0], span, step[0], mod[0]
+    except Exception as e:
+        notes.append("pitch-class constants unreadable (%s: %s)" % (type(e).__name__, e))
+        return 0, 0, 0, 0
+
+
 def gen_c13():
     notes = _Notes()
     out = []
@@ -332,7 +403,7 @@ def gen_c13():
     drum = 0
     lowest = highest = 0
     sl_lo = sl_hi = start_in = start_out = 0
-    dec_full = dec_piano = dec_init0 = dec_init1 = 0
+    dec_shapes = []
     pc_rows = pc_span = pc_step = pc_mod = 0
     try:
         import partitura.utils.globals as G
@@ -348,9 +419,7 @@ def gen_c13():
         decd = _defaults(M.pianoroll_to_notearray, notes, DEC_SPEC)
 
         t_pr = _tree(M.compute_pianoroll)
-        t_mk = _tree(M._make_pianoroll)
         t_pc = _tree(M.compute_pitch_class_pianoroll)
-        t_dec = _tree(M.pianoroll_to_notearray)
 
         # compute_pianoroll -> _make_pianoroll
         calls = _calls(t_pr, "_make_pianoroll")
@@ -364,61 +433,10 @@ def gen_c13():
             pc_fwd, pc_forced, other = _kw_split(calls[0])
             notes.need(not other, "compute_pitch_class_pianoroll: unreadable keywords %r" % (other,))
 
-        # drum channel
-        cmp = _compares(t_pr, "note_array", "channel")
-        if notes.need(len(cmp) == 1 and cmp[0][0] == "NotEq" and isinstance(cmp[0][1], int),
-                      "compute_pianoroll: expected one comparison note_array['channel'] != <int>, found %r" % (cmp,)):
-            drum = cmp[0][1]
-        # default pitch range
-        lo = _assigned_constants(t_mk, "lowest_pitch")
-        hi = _assigned_constants(t_mk, "highest_pitch")
-        if notes.need(len(lo) == 1 and len(hi) == 1, "_make_pianoroll: default pitch range not found (%r, %r)" % (lo, hi)):
-            lowest, highest = lo[0], hi[0]
-        # piano-range slice and index offset
-        sls = []
-        for node in ast.walk(t_mk):
-            if isinstance(node, ast.Subscript) and isinstance(node.value, ast.Name) and node.value.id == "pianoroll":
-                s = node.slice
-                if isinstance(s, ast.Tuple) and s.elts and isinstance(s.elts[0], ast.Slice):
-                    try:
-                        full = isinstance(s.elts[1], ast.Slice) and s.elts[1].lower is None and s.elts[1].upper is None \
-                            and s.elts[1].step is None and s.elts[0].step is None
-                        sls.append((_const(s.elts[0].lower), _const(s.elts[0].upper), full))
-                    except Exception:
-                        sls.append(None)
-        if notes.need(len(sls) == 1 and sls[0] is not None and sls[0][2], "_make_pianoroll: piano-range slice not found (%r)" % (sls,)):
-            sl_lo, sl_hi = sls[0][0], sls[0][1]
-        st = _assigned_constants(t_mk, "pr_idx_pitch_start")
-        if notes.need(len(st) == 2, "_make_pianoroll: pr_idx_pitch_start assignments %r" % (st,)):
-            start_out, start_in = st[0], st[1]
-        # decoder
-        cmp = _compares(t_dec, "pianoroll.shape", 0)
-        ini = _assigned_constants(t_dec, "init_pitch")
-        if notes.need(sorted(c[0] for c in cmp) == ["Eq", "NotEq"] and len(ini) == 2,
-                      "pianoroll_to_notearray: shape tests %r / init_pitch %r" % (cmp, ini)):
-            dec_full = [c[1] for c in cmp if c[0] == "NotEq"][0]
-            dec_piano = [c[1] for c in cmp if c[0] == "Eq"][0]
-            dec_init0, dec_init1 = ini
-        # pitch-class fold
-        zs = [c for c in _calls(t_pc, "zeros")]
-        rng = [c for c in _calls(t_pc, "range")]
-        md = [c for c in _calls(t_pc, "mod")]
-        try:
-            pc_rows = _const(zs[0].args[0].elts[0])
-            div = [n for n in ast.walk(rng[0]) if isinstance(n, ast.BinOp) and isinstance(n.op, ast.Div)]
-            pc_span, pc_step = _const(div[0].left), _const(div[0].right)
-            pc_mod = _const(md[0].args[1])
-            steps = set()
-            for node in ast.walk(t_pc):
-                if isinstance(node, ast.Slice) and node.lower is not None and node.upper is not None:
-                    for side in (node.lower, node.upper):
-                        for b in ast.walk(side):
-                            if isinstance(b, ast.BinOp) and isinstance(b.op, ast.Mult):
-                                steps.add(_const(b.right))
-            notes.need(len(zs) == 1 and len(rng) == 1 and len(md) == 1 and len(div) == 1 and steps == {pc_step},
-                       "compute_pitch_class_pianoroll: fold constants not uniform (%r)" % (sorted(steps),))
-        except Exception as e:
-            notes.append("compute_pitch_class_pianoroll: fold constants unreadable (%s)" % (e,))
+        drum = _probe_drum_channel(M, notes)
+        lowest, highest, sl_lo, sl_hi, start_out, start_in = _probe_rows(M, notes)
+        dec_shapes = _probe_decoder(M, notes)
+        pc_rows, pc_span, pc_step, pc_mod = _probe_pc(M, notes)
     except Exception as e:  # never take the shared translator down
         notes.append("extraction failed: %s: %s" % (type(e).__name__, e))
 
@@ -478,11 +496,8 @@ def gen_c13():
     w("def C13_PIANO_HI : Int := %s" % _lint(sl_hi))
     w("def C13_IDX_START : Int := %s" % _lint(start_out))
     w("def C13_IDX_START_PIANO : Int := %s" % _lint(start_in))
-    w("/-- `pianoroll_to_notearray`: accepted row counts and their pitch offsets -/")
-    w("def C13_DEC_ROWS_FULL : Nat := %d" % max(0, int(dec_full)))
-    w("def C13_DEC_ROWS_PIANO : Nat := %d" % max(0, int(dec_piano)))
-    w("def C13_DEC_INIT_FULL : Int := %s" % _lint(dec_init0))
-    w("def C13_DEC_INIT_PIANO : Int := %s" % _lint(dec_init1))
+    w("/-- `pianoroll_to_notearray`: the roll heights it accepts (every height 0..300 tried) with the pitch of row 0 -/")
+    w("def C13_DEC_SHAPES : List (Nat × Int) := %s" % _llist("(%d, %s)" % (r, _lint(p)) for r, p in dec_shapes))
     w("/-- pitch-class fold: rows of the result, pitch span folded, rows per slice, modulus of the index rows -/")
     w("def C13_PC_ROWS : Nat := %d" % max(0, int(pc_rows)))
     w("def C13_PC_SPAN : Nat := %d" % max(0, int(pc_span)))
